@@ -12,7 +12,7 @@ namespace etl {
 /// compared.
 ///
 /// https://en.cppreference.com/w/cpp/string/wide/wcspbrk
-[[nodiscard]] constexpr auto wcsstr(wchar_t* haystack, wchar_t* needle) noexcept -> wchar_t*
+[[nodiscard]] constexpr auto wcsstr(wchar_t* haystack, wchar_t const* needle) noexcept -> wchar_t*
 {
     return etl::detail::strstr_impl<wchar_t>(haystack, needle);
 }
